@@ -450,9 +450,38 @@ pub fn describe(case: &Case) -> String {
     format!("unit term {} settings={}", term_of(case), case.cfg.describe())
 }
 
+/// The unit cases on which implementation and model differ, under every combination of the presentation settings the oracle
+/// cannot judge switched off (colours, surrogate pairs, verbose mode, disabled anchors) and escaping / capturing groups toggled:
+/// a difference that only showed under such settings is looked at again where the regex crate can decide it.
+pub fn run_unit_around(ctx: &Ctx, diffs: &[Case]) -> Outcome {
+    let mut cases: Vec<(Term, Cfg)> = vec![];
+    let mut seen = std::collections::BTreeSet::new();
+    for c in diffs.iter().filter(|c| is_unit(c)).take(200) {
+        let Some(t) = parse_term(term_of(c)) else { continue };
+        let off = [BIT_COLOR, BIT_SUR, BIT_VERB, BIT_NO_START, BIT_NO_END];
+        for m in 0u32..(1 << off.len()) {
+            let mut bits = c.cfg.bits;
+            for (k, b) in off.iter().enumerate() {
+                if m & (1 << k) != 0 { bits &= !(1 << b); }
+            }
+            for tog in [0u32, 1 << BIT_ESC, 1 << BIT_CAP, (1 << BIT_ESC) | (1 << BIT_CAP)] {
+                let cfg = Cfg { bits: gen::normalise_flags(bits ^ tog), ..c.cfg };
+                if seen.insert((term_of(c).to_string(), cfg.bits)) {
+                    cases.push((t.clone(), cfg));
+                }
+            }
+        }
+    }
+    run_unit_cases(ctx, cases)
+}
+
 pub fn run_unit(ctx: &Ctx, rng: &mut Rng, tier: Tier) -> Outcome {
-    let mut o = Outcome::default();
     let cases = gen_cases(rng, tier);
+    run_unit_cases(ctx, cases)
+}
+
+fn run_unit_cases(ctx: &Ctx, cases: Vec<(Term, Cfg)>) -> Outcome {
+    let mut o = Outcome::default();
     let prop = ctx.prop.clone();
     let evals: Vec<(Eval, Vec<Fail>)> = par_map(&cases, 16, |(t, cfg)| {
         let case = unit_case(&term_text(t), *cfg);
